@@ -417,6 +417,23 @@ impl<I: Iterator, B, F: FnMut(I::Item) -> B> Iterator for Forward<I, F> {
     }
 }
 
+impl<I: DoubleEndedIterator, B, F: FnMut(I::Item) -> B> DoubleEndedIterator for Forward<I, F> {
+    fn next_back(&mut self) -> Option<B> {
+        self.0.next_back().map(&mut self.1)
+    }
+    fn nth_back(&mut self, n: usize) -> Option<B> {
+        self.0.nth_back(n).map(&mut self.1)
+    }
+    fn rfold<A, G: FnMut(A, B) -> A>(self, init: A, mut g: G) -> A {
+        let Forward(i, mut f) = self;
+        i.rfold(init, move |a, x| g(a, f(x)))
+    }
+}
+/// constructor that lets the closure's parameter type be inferred from the iterator
+pub fn forward<I: Iterator, B, F: FnMut(I::Item) -> B>(i: I, f: F) -> Forward<I, F> {
+    Forward(i, f)
+}
+
 #[cfg(test)]
 mod tests {
     use super::*;
